@@ -8,6 +8,8 @@ mod ops;
 mod prog;
 mod readpaths;
 mod runner;
+mod seqmodel;
+mod undo;
 mod util;
 mod weak;
 mod world;
@@ -21,6 +23,8 @@ fn main() {
     let code = match cmd.as_str() {
         "sim" => runner::cmd_sim(&args),
         "replay" => runner::cmd_replay(&args),
+        "seq" => seqmodel::cmd_seq(&args),
+        "undo" => undo::cmd_undo(&args),
         _ => {
             eprintln!("usage: ymon sim|replay ...");
             2
